@@ -64,6 +64,9 @@ SubRules == {
   Rule(SubSrc(<<Id("A")>>), Ext("Sub2", <<Id("A")>>)),
   Rule(SubSrc(<<Id("A"), Id("B"), Id("C")>>), Ext("Sub2", <<Id("C"), Id("A")>>)),
   Rule(SubSrc(<<>>), Ext("Sub2", <<U8T>>)),
+  \* declared source parameters that are spelled like the generator's own generic names
+  Rule(SubSrc(<<Id("_0"), Id("_1")>>), Ext("Sub2", <<Id("_0"), Id("_1")>>)),
+  Rule(SubSrc(<<Id("_1"), Id("_0")>>), Ext("W", <<Ext("Sub2", <<Id("_0"), Id("_1")>>), Id("_1")>>)),
   Rule(SubSrc(<<Id("A"), Id("B")>>), TPath(FALSE, <<"crate", "x", "Sub3">>, <<Id("X"), Id("B")>>)) }
 MapRule == Rule(TPath(FALSE, <<"BTreeMap">>, <<>>), Ext("Map", <<>>))
 MapRule2 == Rule(TPath(FALSE, <<"BTreeMap">>, <<Id("K"), Id("V")>>), Ext("Map", <<Id("V"), Id("K")>>))
